@@ -1,0 +1,364 @@
+// SPDX-FileCopyrightText: 2026 The Pion community <https://pion.ly>
+// SPDX-License-Identifier: MIT
+
+//go:build verif
+
+package ice
+
+import (
+	"context"
+	"net"
+	"net/netip"
+	"sync"
+	"time"
+)
+
+// Exports for the external verification harness (/verif). Built only with -tags verif.
+
+type verifContact struct {
+	contact          func()
+	checkingDuration *time.Time
+}
+
+var verifContacts sync.Map // map[*Agent]*verifContact
+
+// verifTakeContact hands the per-tick closure of connectivityChecks to the harness and tells the
+// timer goroutine to end: ticks are then issued by the harness (VerifTick).
+func verifTakeContact(a *Agent, contact func(), checkingDuration *time.Time) bool {
+	verifContacts.Store(a, &verifContact{contact: contact, checkingDuration: checkingDuration})
+
+	return true
+}
+
+// VerifTick runs one connectivity-check tick (the real closure). False if checks were not started.
+func VerifTick(a *Agent) bool {
+	v, ok := verifContacts.Load(a)
+	if !ok {
+		return false
+	}
+	vc, _ := v.(*verifContact)
+	vc.contact()
+
+	return true
+}
+
+// VerifForget drops harness bookkeeping of a closed agent.
+func VerifForget(a *Agent) { verifContacts.Delete(a) }
+
+// VerifAddLocal adds a local candidate over the given (fake) socket, as the gatherers do.
+func VerifAddLocal(a *Agent, cand Candidate, conn net.PacketConn) error {
+	return a.addCandidate(context.Background(), cand, conn)
+}
+
+// VerifAddRemote is AddRemoteCandidate made synchronous (same pre-checks, same task body).
+func VerifAddRemote(a *Agent, cand Candidate) (accepted bool, err error) {
+	if cand.TCPType() == TCPTypeActive {
+		return false, nil
+	}
+	err = a.loop.Run(a.loop, func(_ context.Context) {
+		accepted = a.addRemoteCandidate(cand)
+	})
+
+	return accepted, err
+}
+
+// VerifInbound delivers one datagram to a local candidate exactly as recvLoop does.
+func VerifInbound(local Candidate, buf []byte, src netip.AddrPort) {
+	type inbound interface {
+		handleInboundPacket(buf []byte, srcAddr netip.AddrPort)
+	}
+	if c, ok := local.(inbound); ok {
+		c.handleInboundPacket(buf, src)
+	}
+}
+
+// VerifSetTieBreaker fixes the tie-breaker (random by default).
+func VerifSetTieBreaker(a *Agent, tb uint64) error {
+	return a.loop.Run(a.loop, func(_ context.Context) { a.tieBreaker = tb })
+}
+
+// VerifAdvance moves every timestamp the agent keeps back by d: virtual time advances by d.
+func VerifAdvance(a *Agent, d time.Duration) error {
+	return a.loop.Run(a.loop, func(_ context.Context) {
+		for i := range a.pendingBindingRequests {
+			a.pendingBindingRequests[i].timestamp = a.pendingBindingRequests[i].timestamp.Add(-d)
+		}
+		shift := func(c Candidate) {
+			setter, ok := c.(candidateActivitySetter)
+			if !ok {
+				return
+			}
+			if t := c.LastReceived(); !t.IsZero() {
+				setter.setLastReceived(t.Add(-d))
+			}
+			if t := c.LastSent(); !t.IsZero() {
+				setter.setLastSent(t.Add(-d))
+			}
+		}
+		seen := map[Candidate]struct{}{}
+		visit := func(c Candidate) {
+			if c == nil {
+				return
+			}
+			if _, dup := seen[c]; dup {
+				return
+			}
+			seen[c] = struct{}{}
+			shift(c)
+		}
+		for _, cs := range a.localCandidates {
+			for _, c := range cs {
+				visit(c)
+				if base, ok := c.(interface{ verifCache() []Candidate }); ok {
+					for _, rc := range base.verifCache() {
+						visit(rc)
+					}
+				}
+			}
+		}
+		for _, cs := range a.remoteCandidates {
+			for _, c := range cs {
+				visit(c)
+			}
+		}
+		for _, p := range a.checklist {
+			visit(p.Local)
+			visit(p.Remote)
+		}
+		if sp := a.getSelectedPair(); sp != nil {
+			visit(sp.Local)
+			visit(sp.Remote)
+		}
+		switch s := a.getSelector().(type) {
+		case *controllingSelector:
+			s.startTime = s.startTime.Add(-d)
+		case *liteSelector:
+			if cs, ok := s.pairCandidateSelector.(*controllingSelector); ok {
+				cs.startTime = cs.startTime.Add(-d)
+			}
+		}
+		if !a.lastRenominationTime.IsZero() {
+			a.lastRenominationTime = a.lastRenominationTime.Add(-d)
+		}
+		if v, ok := verifContacts.Load(a); ok {
+			if vc, _ := v.(*verifContact); vc != nil && !vc.checkingDuration.IsZero() {
+				*vc.checkingDuration = vc.checkingDuration.Add(-d)
+			}
+		}
+	})
+}
+
+func (c *candidateBase) verifCache() []Candidate {
+	var out []Candidate
+	c.remoteCandidateCaches.Range(func(_, value any) bool {
+		if rc, ok := value.(Candidate); ok {
+			out = append(out, rc)
+		}
+
+		return true
+	})
+
+	return out
+}
+
+// VerifPairSnap is the observable state of one checklist entry.
+type VerifPairSnap struct {
+	ID                       uint64
+	Local, Remote            Candidate
+	Controlling              bool
+	State                    CandidatePairState
+	Nominated                bool
+	NominateOnBindingSuccess bool
+	BindingRequestCount      uint16
+	Priority                 uint64
+	ReqSent, ReqRecv         uint64
+	RespSent, RespRecv       uint64
+	PacketsSent, PacketsRecv uint32
+	BytesSent, BytesRecv     uint64
+}
+
+// VerifPendingSnap is one outstanding transaction.
+type VerifPendingSnap struct {
+	TransactionID [12]byte
+	Destination   netip.AddrPort
+	NetworkType   NetworkType
+	UseCandidate  bool
+	HasNomination bool
+	Nomination    uint32
+	Age           time.Duration
+}
+
+// VerifSnapshot is the loop-owned agent state, read inside the loop.
+type VerifSnapshot struct {
+	Closed             bool
+	Controlling        bool
+	ConnectionState    ConnectionState
+	GatheringState     GatheringState
+	LocalUfrag         string
+	LocalPwd           string
+	RemoteUfrag        string
+	RemotePwd          string
+	Locals, Remotes    []Candidate
+	Pairs              []VerifPairSnap
+	NextPairID         uint64
+	PairsByIDConsistent bool
+	Pending            []VerifPendingSnap
+	SelectedID         uint64
+	HasSelected        bool
+	SelectedInChecklist bool
+	NominatedID        uint64
+	HasNominated       bool
+	HasLastNomination  bool
+	LastNomination     uint32
+	Now                time.Time
+}
+
+func verifPairSnap(p *CandidatePair) VerifPairSnap {
+	return VerifPairSnap{
+		ID: p.id, Local: p.Local, Remote: p.Remote, Controlling: p.iceRoleControlling, State: p.state,
+		Nominated: p.nominated, NominateOnBindingSuccess: p.nominateOnBindingSuccess,
+		BindingRequestCount: p.bindingRequestCount, Priority: p.priority(),
+		ReqSent: p.RequestsSent(), ReqRecv: p.RequestsReceived(),
+		RespSent: p.ResponsesSent(), RespRecv: p.ResponsesReceived(),
+		PacketsSent: p.PacketsSent(), PacketsRecv: p.PacketsReceived(),
+		BytesSent: p.BytesSent(), BytesRecv: p.BytesReceived(),
+	}
+}
+
+// VerifSnap takes a snapshot. After Close the loop is gone: the fields are then read directly
+// (nothing else runs).
+func VerifSnap(a *Agent) VerifSnapshot {
+	var snap VerifSnapshot
+	read := func() {
+		snap.Controlling = a.isControlling.Load()
+		snap.ConnectionState = a.connectionState
+		snap.GatheringState = a.gatheringState
+		snap.LocalUfrag, snap.LocalPwd = a.localUfrag, a.localPwd
+		snap.RemoteUfrag, snap.RemotePwd = a.remoteUfrag, a.remotePwd
+		for _, nt := range supportedNetworkTypes() {
+			snap.Locals = append(snap.Locals, a.localCandidates[nt]...)
+			snap.Remotes = append(snap.Remotes, a.remoteCandidates[nt]...)
+		}
+		snap.PairsByIDConsistent = len(a.pairsByID) == len(a.checklist)
+		for _, p := range a.checklist {
+			snap.Pairs = append(snap.Pairs, verifPairSnap(p))
+			if a.pairsByID[p.id] != p {
+				snap.PairsByIDConsistent = false
+			}
+		}
+		snap.NextPairID = a.nextPairID
+		snap.Now = time.Now()
+		for _, q := range a.pendingBindingRequests {
+			ps := VerifPendingSnap{
+				TransactionID: q.transactionID, Destination: q.destination, NetworkType: q.networkType,
+				UseCandidate: q.isUseCandidate, Age: snap.Now.Sub(q.timestamp),
+			}
+			if q.nominationValue != nil {
+				ps.HasNomination, ps.Nomination = true, *q.nominationValue
+			}
+			snap.Pending = append(snap.Pending, ps)
+		}
+		if sp := a.getSelectedPair(); sp != nil {
+			snap.HasSelected, snap.SelectedID = true, sp.id
+			for _, p := range a.checklist {
+				if p == sp {
+					snap.SelectedInChecklist = true
+				}
+			}
+		}
+		var cs *controllingSelector
+		switch s := a.getSelector().(type) {
+		case *controllingSelector:
+			cs = s
+		case *controlledSelector:
+			if s.lastNomination != nil {
+				snap.HasLastNomination, snap.LastNomination = true, *s.lastNomination
+			}
+		case *liteSelector:
+			switch inner := s.pairCandidateSelector.(type) {
+			case *controllingSelector:
+				cs = inner
+			case *controlledSelector:
+				if inner.lastNomination != nil {
+					snap.HasLastNomination, snap.LastNomination = true, *inner.lastNomination
+				}
+			}
+		}
+		if cs != nil && cs.nominatedPair != nil {
+			snap.HasNominated, snap.NominatedID = true, cs.nominatedPair.id
+		}
+	}
+	if err := a.loop.Run(a.loop, func(_ context.Context) { read() }); err != nil {
+		snap.Closed = true
+		read()
+	}
+
+	return snap
+}
+
+// VerifConfigSnapshot is the effective configuration of the agent.
+type VerifConfigSnapshot struct {
+	Lite                        bool
+	TieBreaker                  uint64
+	MaxBindingRequests          uint16
+	DisconnectedTimeout         time.Duration
+	DisconnectedTimeoutExplicit bool
+	FailedTimeout               time.Duration
+	KeepaliveInterval           time.Duration
+	HostWait, SrflxWait         time.Duration
+	PrflxWait, RelayWait        time.Duration
+	Renomination                bool
+	CheckPriority               bool
+	TCPPriorityOffset           uint16
+}
+
+// VerifConfig reads the effective configuration.
+func VerifConfig(a *Agent) VerifConfigSnapshot {
+	var c VerifConfigSnapshot
+	_ = a.loop.Run(a.loop, func(_ context.Context) {
+		c = VerifConfigSnapshot{
+			Lite: a.lite, TieBreaker: a.tieBreaker, MaxBindingRequests: a.maxBindingRequests,
+			DisconnectedTimeout: a.disconnectedTimeout, DisconnectedTimeoutExplicit: a.disconnectedTimeoutExplicit,
+			FailedTimeout: a.failedTimeout, KeepaliveInterval: a.keepaliveInterval,
+			HostWait: a.hostAcceptanceMinWait, SrflxWait: a.srflxAcceptanceMinWait,
+			PrflxWait: a.prflxAcceptanceMinWait, RelayWait: a.relayAcceptanceMinWait,
+			Renomination: a.enableRenomination, CheckPriority: a.enableUseCandidateCheckPriority,
+			TCPPriorityOffset: a.tcpPriorityOffset,
+		}
+	})
+
+	return c
+}
+
+// VerifNotifiersIdle reports whether all queued callbacks have been delivered.
+func VerifNotifiersIdle(a *Agent) bool {
+	idle := func(h *handlerNotifier) bool {
+		h.Lock()
+		defer h.Unlock()
+
+		return !h.runningConnectionStates && !h.runningCandidates && !h.runningCandidatePairs &&
+			len(h.connectionStates) == 0 && len(h.candidates) == 0 && len(h.selectedCandidatePairs) == 0
+	}
+
+	return idle(a.connectionStateNotifier) && idle(a.candidateNotifier) && idle(a.selectedCandidatePairNotifier)
+}
+
+// VerifLastReceivedAge returns how long ago (real time) the candidate was last heard from; ok=false if never.
+func VerifLastReceivedAge(c Candidate) (time.Duration, bool) {
+	t := c.LastReceived()
+	if t.IsZero() {
+		return 0, false
+	}
+
+	return time.Since(t), true
+}
+
+// VerifTickReady reports whether connectivityChecks has handed over its tick closure.
+func VerifTickReady(a *Agent) bool {
+	_, ok := verifContacts.Load(a)
+
+	return ok
+}
+
+// VerifConn returns a Conn bound to the agent (as startConnect creates it).
+func VerifConn(a *Agent) *Conn { return &Conn{agent: a} }
